@@ -526,6 +526,84 @@ def boundary_scripts():
     hoist = [x for x in first if x.split(" = ")[1].split("(")[0] in ("Led", "RGBLed", "DCMotor", "Button", "Potentiometer", "Ultrasonic", "Servo")]
     out.append((dimp + "\n".join(first) + "\nwhile True:\n" + "".join("    " + x + "\n" for x in hoist) + "".join("    " + u + "\n" for u in use),
                 {"boundary: hoistable device names bound before the loop AND at the top of the loop body": 1}))
+    out += repaired_boundary_scripts(head, tail)
+    return out
+
+
+RESERVED_SITES = {
+    "assignment at the top": "{N} = 3\nwhile True:\n    mon.write({N})\n    sleep(100)\n",
+    "first assignment in the main loop": "while True:\n    {N} = 3\n    mon.write({N})\n    sleep(100)\n",
+    "tuple assignment": "a, {N} = 1, 2\nwhile True:\n    mon.write(a)\n    sleep(100)\n",
+    "for variable": "for {N} in range(3):\n    sleep(1)\nwhile True:\n    sleep(100)\n",
+    "for variable in the main loop": "while True:\n    for {N} in range(2):\n        sleep(1)\n    sleep(100)\n",
+    "function name": "def {N}(x: int):\n    return x + 1\nv = {N}(2)\nwhile True:\n    mon.write(v)\n    sleep(100)\n",
+    "parameter": "def f(k: int, {N}: int):\n    return {N} + k\nv = f(2, 3)\nwhile True:\n    mon.write(v)\n    sleep(100)\n",
+    "local of a function": "def f(x: int):\n    {N} = x + 1\n    return {N}\nv = f(2)\nwhile True:\n    mon.write(v)\n    sleep(100)\n",
+    "first assignment inside if": "x = 3\nif x > 2:\n    {N} = 4\nwhile True:\n    sleep(100)\n",
+    "first assignment inside try": "x = 3\ntry:\n    {N} = 4\nexcept:\n    x = 5\nwhile True:\n    sleep(100)\n",
+    "comprehension variable": "vals = [{N} * 2 for {N} in range(3)]\nwhile True:\n    mon.write(len(vals))\n    sleep(100)\n",
+    "except target": "x = 1\ntry:\n    x = 2\nexcept ValueError as {N}:\n    x = 3\nwhile True:\n    mon.write(x)\n    sleep(100)\n",
+    "exception class": "x = 1\ntry:\n    x = 2\nexcept {N}:\n    x = 3\nwhile True:\n    mon.write(x)\n    sleep(100)\n",
+    "dotted exception class": "x = 1\ntry:\n    x = 2\nexcept errors.{N}:\n    x = 3\nwhile True:\n    mon.write(x)\n    sleep(100)\n",
+}
+# names next to the reserved ones: they are ordinary identifiers, the sketches must compile
+NEAR_RESERVED = ["double2", "Loop", "class_", "int_", "new1", "A0x", "delay_ms", "Setup", "high", "string", "serial", "floats", "a0", "B0", "main_loop"]
+
+
+def repaired_boundary_scripts(head, tail):
+    """the regions the guards of F-C06-literal-concat, F-C06-named-except and F-C06-cpp-keyword-identifier excluded until their repair,
+    smallest scripts first"""
+    import keyword
+    out = []
+    t = 't = analog_read("A0") > 300\n'
+    concat = {
+        "two literals": 'm = "a" + "b"\nwhile True:\n    mon.write(m)\n    sleep(100)\n',
+        "choice + literal": t + 'mon.write(("a" if t else "b") + "c")\n' + tail,
+        "literal + choice": t + 'mon.write("x" + ("a" if t else "b"))\n' + tail,
+        "choice + choice": t + 'm = ("a" if t else "b") + ("c" if not t else "d")\nmon.write(m)\n' + tail,
+        "nested choice": t + 'm = ("a" if t else ("b" if not t else "c")) + "d"\nmon.write(m)\n' + tail,
+        "chain to the left": 'mon.write("x" + "y" + "z")\n' + tail,
+        "chain to the right": 'mon.write("x" + ("y" + "z"))\n' + tail,
+        "f-string without fields": 'mon.write(f"lit" + "z")\nmon.write("z" + f"lit")\n' + tail,
+        "next to a String": 's = str(3)\nmon.write(("a" + "b") + s)\nmon.write(s + ("a" + "b"))\n' + tail,
+        "empty literals": 'm = "" + ""\nmon.write(m)\n' + tail,
+        "augmented": 'm = "a"\nm += "b" + "c"\nmon.write(m)\n' + tail,
+        "in the main loop": 'while True:\n    m = "a" + "b"\n    mon.write(m)\n    sleep(100)\n',
+        "in a function": 'def tag():\n    return "a" + "b"\nwhile True:\n    mon.write(tag())\n    sleep(100)\n',
+        "argument of len and str": 'mon.write(len("a" + "b"))\nmon.write(str("a" + "b"))\n' + tail,
+        "in a list": 'names = ["a" + "b", "c"]\nmon.write(names[0])\n' + tail,
+        "int of a choice": t + 'mon.write(int("12" if t else "13"))\n' + tail,
+        "float of a choice": t + 'mon.write(float("1.5" if t else "2.5"))\n' + tail,
+        "int of a nested choice": t + 'n = int("1" if t else ("2" if not t else "3"))\nmon.write(n)\n' + tail,
+        "int of an f-string without fields": 'mon.write(int(f"12"))\n' + tail,
+        "int of a concatenation": 'mon.write(int("1" + "2"))\n' + tail,
+    }
+    for k, body in concat.items():
+        out.append((head + body, {"boundary: literal concatenation, " + k: 1}))
+    handlers = {
+        "named": "except ValueError:\n", "named with a target": "except ValueError as err:\n", "Exception": "except Exception:\n",
+        "dotted": "except errors.Timeout:\n", "dotted with a target": "except pkg.sub.Failure as err:\n",
+    }
+    for k, h in handlers.items():
+        out.append((head + "x = 3\ntry:\n    x = 4\n" + h + "    x = 5\n" + "while True:\n    mon.write(x)\n    sleep(100)\n", {"boundary: except handler " + k + ", setup": 1}))
+        out.append((head + "while True:\n    x = 3\n    try:\n        x = 4\n    " + h + "        x = 5\n    mon.write(x)\n    sleep(100)\n", {"boundary: except handler " + k + ", main loop": 1}))
+        out.append((head + "def f(x: int):\n    try:\n        x = x + 1\n    " + h + "        x = 0\n    return x\nv = f(2)\n" + tail, {"boundary: except handler " + k + ", function": 1}))
+    out.append((head + "x = 3\ntry:\n    x = 4\nexcept ValueError:\n    x = 5\nexcept KeyError as err:\n    x = 6\nexcept errors.Timeout:\n    x = 7\nexcept errors.Busy:\n    x = 8\nexcept:\n    x = 9\n" + tail,
+                {"boundary: five handlers, two classes of one package": 1}))
+    out.append((head + "def f(x: int):\n    try:\n        x = x + 1\n    except ValueError:\n        x = 0\n    return x\nv = 0\ntry:\n    v = f(2)\nexcept ValueError as err:\n    v = 1\n"
+                + "while True:\n    try:\n        v = f(v)\n    except ValueError:\n        v = 2\n    for i in range(2):\n        try:\n            v = v + 1\n        except TypeError:\n            v = 3\n    sleep(100)\n",
+                {"boundary: one exception class named in setup, loop, a function and a nested block": 1}))
+    names = sorted(n for n in G.REJECTED_NAMES if not keyword.iskeyword(n))
+    sites = list(RESERVED_SITES.items())
+    for i, n in enumerate(names):                       # every reserved name at one site (rotating) ...
+        k, body = sites[i % len(sites)]
+        out.append((head + body.format(N=n), {"boundary: reserved name, " + k: 1}))
+    for n in ["double", "int", "new", "loop", "setup", "delay", "HIGH", "A0", "String", "min", "register", "union"]:   # ... and some at every site
+        for k, body in sites:
+            out.append((head + body.format(N=n), {"boundary: reserved name, " + k: 1}))
+    for i, n in enumerate(NEAR_RESERVED):                 # ordinary identifiers next to them
+        for k, body in [sites[(i * 5) % len(sites)]]:
+            out.append((head + body.format(N=n), {"boundary: name next to a reserved one, " + k: 1}))
     return out
 
 
